@@ -80,7 +80,7 @@ func (c11) Generate(r *sim.Rand, tier string) *sim.Scenario {
 		if r.Bool(0.3) {
 			sc.Cfg["actnil"] = 1
 		} else {
-			sc.Cfg["actm"] = []float64{0.01, 0.2, 0.5, -0.1}[r.Intn(4)]
+			sc.Cfg["actm"] = []float64{0.01, 0.2, 0.5, -0.1, 1, 0, 2, -1, r.Uniform(-1, 2)}[r.Intn(9)]
 		}
 	case 5:
 		switch r.Intn(3) {
